@@ -399,6 +399,7 @@ pub fn gen_plan(rng: &mut Rng, sh: &WorldShape, mac: QMacro, f: &Faults) -> Vec<
             QMacro::Iter | QMacro::IterDestroy | QMacro::IterDestroyUnit | QMacro::IterDestroyStep | QMacro::Find => match rng.below(8) {
                 0 => Inner::OtherCreate { p: rng.next() },
                 1 => Inner::OtherDestroy { n: rng.next() as u32 },
+                3 if f.fork => Inner::AltQuery { n: rng.next() as u32, mask: (rng.next() & rng.next()) as u32 },
                 2 => Inner::OtherQuery { kind: rng.below(3) as u8, n: rng.next() as u32, mask: (rng.next() & rng.next()) as u32, pk: if f.closure_panic && rng.chance(1, 3) { 1 + rng.below(5) as u32 } else { 0 } },
                 _ => Inner::Nothing,
             },
